@@ -24,7 +24,7 @@ CLAIM = dict(
 def gen(rng, n):
     k = 0
     while k < n:
-        s = gen_script(rng, tie_heavy=True)
+        s = gen_beyond(rng) if k % 12 == 5 else gen_script(rng, tie_heavy=True)
         yield s; k += 1
         if k < n and rng.random() < 0.5:
             # metamorphic twin: same history, different queue parameters
